@@ -1,6 +1,6 @@
 //! Plain-data model of a buffer inside the representable domain of one binary art format, its generator and the
 //! builder that turns it into an engine `Buffer`.
-use icy_engine::{AttributedChar, BitFont, Buffer, Color, IceMode, Palette, SaveOptions, TextAttribute};
+use icy_engine::{AttributedChar, BitFont, Buffer, Color, IceMode, Palette, SauceData, SauceString, SaveOptions, TextAttribute};
 use icyv::proptest::prelude::*;
 use serde::{Deserialize, Serialize};
 
@@ -75,6 +75,13 @@ pub struct Model {
     /// replay and witness files never carry it
     #[serde(default)]
     pub steered: bool,
+    /// what the SAUCE trailer carries when `sauce` is set: 0 = the record only, 1 / 2 / 3 = record + 1 / 2 / 255 comment
+    /// lines, 4 = title/author/group at maximal length, 5 = maximal strings + 2 comment lines
+    #[serde(default)]
+    pub sauce_meta: u8,
+    /// storage shape applied after `build` (icyv::shape::perturb; 0 = as built); never changes the picture
+    #[serde(default)]
+    pub shape: u8,
 }
 
 /// which open known findings the generators steer away from (see main.rs `STEER_IDS`)
@@ -309,7 +316,37 @@ pub fn build(m: &Model, cells: &[Cell]) -> Buffer {
     for (i, c) in cells.iter().enumerate() {
         buf.layers[0].set_char(((i % w) as i32, (i / w) as i32), AttributedChar::new(c.ch as char, attr_of(c)));
     }
+    if m.sauce && m.sauce_meta != 0 {
+        buf.set_sauce(Some(sauce_meta(m.sauce_meta)), false);
+    }
     buf
+}
+
+/// the document's SAUCE metadata (what an editor's "SAUCE info" dialog holds); it travels in the trailer of the saved file
+pub fn sauce_meta(code: u8) -> SauceData {
+    let mut s = SauceData::default();
+    let comments = match code {
+        1 => 1,
+        2 | 5 => 2,
+        3 => 255,
+        _ => 0,
+    };
+    for i in 0..comments {
+        // odd lines fill all 64 columns
+        let mut line = format!("c05 comment line {i:03}");
+        if i % 2 == 1 {
+            while line.len() < 64 {
+                line.push('x');
+            }
+        }
+        s.comments.push(SauceString::from(line));
+    }
+    if code >= 4 {
+        s.title = SauceString::from("T".repeat(35));
+        s.author = SauceString::from("A".repeat(20));
+        s.group = SauceString::from("G".repeat(20));
+    }
+    s
 }
 
 // ------------------------------------------------------------------------------------------------ generators
@@ -401,11 +438,28 @@ fn finish(mut m: Model, no_ctrl_1_6: bool) -> Model {
     m
 }
 
+/// the SAUCE trailer content and the storage shape: two dimensions every format shares
+fn with_extras(base: BoxedStrategy<Model>, shapes: bool) -> BoxedStrategy<Model> {
+    let meta = prop_oneof![3 => Just(0u8), 2 => Just(1u8), 2 => Just(2u8), 1 => Just(3u8), 1 => Just(4u8), 1 => Just(5u8)];
+    let shape = if shapes { prop_oneof![6 => Just(0u8), 4 => 1u8..icyv::shape::CODES].boxed() } else { Just(0u8).boxed() };
+    (base, meta, shape)
+        .prop_map(|(mut m, meta, shape)| {
+            m.sauce_meta = if m.sauce { meta } else { 0 };
+            m.shape = shape;
+            m
+        })
+        .boxed()
+}
+
 fn font1() -> BoxedStrategy<FontM> {
     prop_oneof![2 => Just(FontM::Default), 3 => any::<u16>().prop_map(FontM::Custom)].boxed()
 }
 
 pub fn xb_models(small: bool) -> BoxedStrategy<Model> {
+    with_extras(xb_inner(small), !small)
+}
+
+fn xb_inner(small: bool) -> BoxedStrategy<Model> {
     let size = if small {
         prop_oneof![4 => (1u16..=40, 1u16..=30), 1 => (Just(80u16), 1u16..=30)].boxed()
     } else {
@@ -422,12 +476,16 @@ pub fn xb_models(small: bool) -> BoxedStrategy<Model> {
     let fonts = prop_oneof![3 => font1().prop_map(|f| vec![f]), 2 => (font1(), any::<u16>()).prop_map(|(a, s)| vec![a, FontM::Custom(s)])];
     (size, any::<bool>(), pal6(), font_h, fonts, raw_runs(if small { 40 } else { 120 }), any::<bool>(), any::<bool>())
         .prop_map(|((w, h), ice, palette, font_h, fonts, runs, compress, sauce)| {
-            finish(Model { fmt: Fmt::Xb, w, h, ice, palette, font_h, fonts, runs, compress, sauce, steered: false }, false)
+            finish(Model { fmt: Fmt::Xb, w, h, ice, palette, font_h, fonts, runs, compress, sauce, steered: false, sauce_meta: 0, shape: 0 }, false)
         })
         .boxed()
 }
 
 pub fn bin_models(small: bool) -> BoxedStrategy<Model> {
+    with_extras(bin_inner(small), !small)
+}
+
+fn bin_inner(small: bool) -> BoxedStrategy<Model> {
     let width = if small {
         prop_oneof![2 => (1u16..=20).prop_map(|k| 2 * k), 1 => Just(80u16), 1 => Just(160u16)].boxed()
     } else {
@@ -437,7 +495,7 @@ pub fn bin_models(small: bool) -> BoxedStrategy<Model> {
     (width, height, any::<bool>(), raw_runs(if small { 40 } else { 120 }))
         .prop_map(|(w, h, ice, runs)| {
             finish(
-                Model { fmt: Fmt::Bin, w, h, ice, palette: DEFPAL6.to_vec(), font_h: 16, fonts: vec![FontM::Default], runs, compress: false, sauce: true, steered: false },
+                Model { fmt: Fmt::Bin, w, h, ice, palette: DEFPAL6.to_vec(), font_h: 16, fonts: vec![FontM::Default], runs, compress: false, sauce: true, steered: false, sauce_meta: 0, shape: 0 },
                 false,
             )
         })
@@ -445,15 +503,23 @@ pub fn bin_models(small: bool) -> BoxedStrategy<Model> {
 }
 
 pub fn adf_models(small: bool) -> BoxedStrategy<Model> {
+    with_extras(adf_inner(small), !small)
+}
+
+fn adf_inner(small: bool) -> BoxedStrategy<Model> {
     let height = if small { (1u16..=30).boxed() } else { heights() };
     (height, pal6(), font1(), raw_runs(if small { 40 } else { 120 }), any::<bool>())
         .prop_map(|(h, palette, font, runs, sauce)| {
-            finish(Model { fmt: Fmt::Adf, w: 80, h, ice: true, palette, font_h: 16, fonts: vec![font], runs, compress: false, sauce, steered: false }, false)
+            finish(Model { fmt: Fmt::Adf, w: 80, h, ice: true, palette, font_h: 16, fonts: vec![font], runs, compress: false, sauce, steered: false, sauce_meta: 0, shape: 0 }, false)
         })
         .boxed()
 }
 
 pub fn idf_models(small: bool) -> BoxedStrategy<Model> {
+    with_extras(idf_inner(small), !small)
+}
+
+fn idf_inner(small: bool) -> BoxedStrategy<Model> {
     let height = if small { (1u16..=30).boxed() } else { heights() };
     let width = prop_oneof![3 => Just(80u16), 3 => 1u16..=80, 1 => Just(1u16)];
     // IDF cells that collide with the run marker (character 1, attribute 0) get extra weight
@@ -468,12 +534,16 @@ pub fn idf_models(small: bool) -> BoxedStrategy<Model> {
     (width, height, pal6(), font1(), runs, any::<bool>(), any::<bool>())
         .prop_map(|(w, h, palette, font, runs, compress, sauce)| {
             // `finish` rescales colours 0..32 -> 0..16; the inserted marker cells are already final (0 stays 0)
-            finish(Model { fmt: Fmt::Idf, w, h, ice: true, palette, font_h: 16, fonts: vec![font], runs, compress, sauce, steered: false }, false)
+            finish(Model { fmt: Fmt::Idf, w, h, ice: true, palette, font_h: 16, fonts: vec![font], runs, compress, sauce, steered: false, sauce_meta: 0, shape: 0 }, false)
         })
         .boxed()
 }
 
 pub fn tnd_models(small: bool, st: Steer) -> BoxedStrategy<Model> {
+    with_extras(tnd_inner(small, st), !small)
+}
+
+fn tnd_inner(small: bool, st: Steer) -> BoxedStrategy<Model> {
     // widths 1..=1000: Buffer::set_sauce deliberately reads a SAUCE width of 0 or > 1000 as 80 (property C11)
     let size = if small {
         prop_oneof![3 => (1u16..=40, 1u16..=30), 1 => (Just(80u16), 1u16..=30)].boxed()
@@ -489,7 +559,7 @@ pub fn tnd_models(small: bool, st: Steer) -> BoxedStrategy<Model> {
     // characters 1..=6 collide with Tundra's command bytes; two thirds of the cases stay clear of them anyway
     (size, pal24(), raw_runs(if small { 40 } else { 120 }), 0u8..3)
         .prop_map(move |((w, h), palette, runs, ctl)| {
-            let raw = Model { fmt: Fmt::Tnd, w, h, ice: true, palette, font_h: 16, fonts: vec![FontM::Default], runs, compress: false, sauce: true, steered: false };
+            let raw = Model { fmt: Fmt::Tnd, w, h, ice: true, palette, font_h: 16, fonts: vec![FontM::Default], runs, compress: false, sauce: true, steered: false, sauce_meta: 0, shape: 0 };
             let mut steered = false;
             let mut avoid_ctrl = ctl != 0;
             if st.tnd_ctrl && !avoid_ctrl {
@@ -565,8 +635,17 @@ pub fn simpler(m: &Model) -> Vec<Model> {
     if m.compress {
         push(Model { compress: false, ..m.clone() });
     }
+    if m.shape != 0 {
+        push(Model { shape: 0, ..m.clone() });
+    }
+    if m.sauce_meta != 0 {
+        push(Model { sauce_meta: 0, ..m.clone() });
+        if m.sauce_meta > 1 {
+            push(Model { sauce_meta: 1, ..m.clone() });
+        }
+    }
     if m.sauce {
-        push(Model { sauce: false, ..m.clone() });
+        push(Model { sauce: false, sauce_meta: 0, ..m.clone() });
     }
     if m.runs.len() <= 12 {
         for i in 0..m.runs.len() {
